@@ -153,54 +153,66 @@ func c19BodyOpt(nAbandon int, so srvOpts, co cliOpts) func(x *X) {
 
 // a pipelined client: a live call holds sequence number 0 while a call whose context is already
 // done (or is cancelled before its request leaves the writer queue) is abandoned
-func c19Pipelined(x *X) {
-	pre := x.Choose(2) == 1 // context already cancelled when CallWithContext is entered
-	f := newFixture(srvOpts{bufSize: 64}, cliOpts{bufSize: 64, pipelining: true})
-	live := newUcall(0x11, fGate, 40, formCall)
-	live.spawn(f.conn)
-	vs.Quiesce()
-	ab := newUcall(0x41, fGate, 24, formCallCtx)
-	ab.hctx = newCtx(nil)
-	if pre {
-		ab.hctx.cancel(context.Canceled)
-	}
-	ab.spawn(f.conn)
-	if !pre {
-		vs.GoNamed("canceller", func() { ab.hctx.cancel(context.Canceled) })
-	}
-	vs.Quiesce()
-	if !ab.ret {
-		x.Fail("C19/call-with-context-hangs", "CallWithContext did not return although its context is done")
-	} else if ab.err != context.Canceled {
-		x.Fail("C19/wrong-error", "CallWithContext returned %v, want context.Canceled", ab.err)
-	}
-	f.w.open(0x11)
-	f.w.open(0x41)
-	vs.Quiesce()
-	out := c01Check(x, []*ucall{live}, "live-call-next-to-abandoned")
-	if !live.ret || live.err != nil {
-		x.Fail("C19/sibling-disturbed", "the live call that was outstanding when another call was abandoned: returned=%v err=%v", live.ret, live.err)
-	}
-	var later []*ucall
-	for j := 0; j < 2; j++ {
-		c := newUcall(byte(0x61+j), 0, 12+31*j, formCall)
-		c.spawn(f.conn)
-		later = append(later, c)
-	}
-	vs.Quiesce()
-	for _, c := range later {
-		if !c.ret || c.err != nil {
-			x.Fail("C19/later-call-failed", "a call after the abandoned one: returned=%v err=%v", c.ret, c.err)
+func c19Pipelined(prop string) func(x *X) {
+	return func(x *X) {
+		pre := x.Choose(2) == 1 // context already cancelled when CallWithContext is entered
+		f := newFixture(srvOpts{bufSize: 64}, cliOpts{bufSize: 64, pipelining: true})
+		live := newUcall(0x11, fGate, 40, formCall)
+		live.spawn(f.conn)
+		vs.Quiesce()
+		ab := newUcall(0x41, fGate, 24, formCallCtx)
+		ab.hctx = newCtx(nil)
+		if pre {
+			ab.hctx.cancel(context.Canceled)
 		}
+		ab.spawn(f.conn)
+		if !pre {
+			vs.GoNamed("canceller", func() { ab.hctx.cancel(context.Canceled) })
+		}
+		vs.Quiesce()
+		if !ab.ret {
+			x.Fail("C19/call-with-context-hangs", "CallWithContext did not return although its context is done")
+		} else if ab.err != context.Canceled {
+			x.Fail("C19/wrong-error", "CallWithContext returned %v, want context.Canceled", ab.err)
+		}
+		f.w.open(0x11)
+		f.w.open(0x41)
+		vs.Quiesce()
+		out := c01Check(x, []*ucall{live}, "live-call-next-to-abandoned")
+		if prop == "C02" && !live.ret {
+			x.Fail("C02/call-never-completes/next-to-abandoned", "a call (the connection's first, sequence number 0) was outstanding while a CallWithContext whose context was done (before its request left the writer queue: %v) was abandoned; the server answered it and it never completed", pre)
+			f.conn.Close()
+			vs.Quiesce()
+			if !live.ret {
+				x.Fail("C02/call-never-completes/even-after-close", "... and it did not complete when the connection was closed either")
+			}
+			return
+		}
+		if !live.ret || live.err != nil {
+			x.Fail("C19/sibling-disturbed", "the live call that was outstanding when another call was abandoned: returned=%v err=%v", live.ret, live.err)
+		}
+		var later []*ucall
+		for j := 0; j < 2; j++ {
+			c := newUcall(byte(0x61+j), 0, 12+31*j, formCall)
+			c.spawn(f.conn)
+			later = append(later, c)
+		}
+		vs.Quiesce()
+		for _, c := range later {
+			if !c.ret || c.err != nil {
+				x.Fail("C19/later-call-failed", "a call after the abandoned one: returned=%v err=%v", c.ret, c.err)
+			}
+		}
+		out += c01Check(x, later, "after-abandoned-call")
+		x.Outcome("pre=%v %s", pre, out)
+		f.conn.Close()
+		vs.Quiesce()
 	}
-	out += c01Check(x, later, "after-abandoned-call")
-	x.Outcome("pre=%v %s", pre, out)
-	f.conn.Close()
-	vs.Quiesce()
 }
 
 func init() {
-	register(&Scenario{Prop: "C19", Name: "c19/pipelined-client", Quick: []Bound{{1, 0}, {2, 0}}, Thorough: []Bound{{3, 0}}, Body: c19Pipelined})
+	register(&Scenario{Prop: "C19", Name: "c19/pipelined-client", Quick: []Bound{{1, 0}, {2, 0}}, Thorough: []Bound{{3, 0}}, Body: c19Pipelined("C19")})
+	register(&Scenario{Prop: "C02", Name: "c02/pipelined-client-abandons", Quick: []Bound{{1, 0}}, Thorough: []Bound{{3, 0}}, Body: c19Pipelined("C02"), OnlyKeys: []string{"C02/", "panic/", "livelock/"}, BudgetQ: 15})
 	register(&Scenario{Prop: "C19", Name: "c19/1abandoned-yieldcodec", Quick: []Bound{{1, 0}}, Thorough: []Bound{{2, 0}}, Body: c19BodyOpt(1, srvOpts{bufSize: 64, codec: yieldBytesCodec}, cliOpts{bufSize: 64})})
 	register(&Scenario{Prop: "C19", Name: "c19/1abandoned", Quick: []Bound{{1, 0}, {2, 0}}, Thorough: []Bound{{3, 0}}, Body: c19Body(1), BudgetQ: 35})
 	register(&Scenario{Prop: "C01", Name: "c01/next-to-abandoned-calls", Quick: []Bound{{1, 0}}, Thorough: []Bound{{3, 0}}, Body: c19Body(1), OnlyKeys: []string{"C01/", "panic/", "livelock/"}, BudgetQ: 20})
